@@ -320,7 +320,7 @@ func (c *Ctx) ErrTestedBefore(fnName string, calls Sel, errIdx int, ok Sel) bool
 		if errIdx >= 0 {
 			term = fmt.Sprintf("%s#%d", term, errIdx)
 		}
-		ne := Atom{NE, Lin{Coef: map[string]int64{term: 1}}}.norm()
+		ne := Atom{Kind: NE, L: Lin{Coef: map[string]int64{term: 1}}}.norm()
 		// tests of this error
 		var tests []*ssa.If
 		eachInstr(fn, func(x ssa.Instruction) {
@@ -398,7 +398,7 @@ func (c *Ctx) SliceHighNonNeg(fnName string, sel Sel) bool {
 			c.Undecided(rule, construct, "selected site is not a slice with an upper bound")
 			return false
 		}
-		want := Atom{LE, Linearize(s.High).scale(-1)}
+		want := Atom{Kind: LE, L: Linearize(s.High).scale(-1)}
 		if !holds(FactsAtInstr(in), want, false) {
 			c.Fail(rule, construct, InstrPos(in), fmt.Sprintf("`%s` is not dominated by a branch establishing %s; facts here: {%s}", DescribeInstr(in), want, factStrings(FactsAtInstr(in))))
 			return false
